@@ -306,6 +306,9 @@ var ibFieldChoices = []ibField{
 	{"P", `json:"p"`, `@tag valid:"exist"`, "[]*struct{ X, Y int }"},
 	// '$' in an existing and in an injected value (regexp replacement templates expand $name)
 	{"Q", `json:"a$$b" re:"^x$1$"`, `@tag valid:"re='^x+$'" cost:"$5"`, ""},
+	// the marker inside a longer word is not an annotation; a hand-aligned tag must keep its spacing
+	{"R", `json:"uid"`, `mail ops@tagteam.example json:"user_id"`, ""},
+	{"T", `json:"t"     db:"t"`, `@tagged json:"x"`, ""},
 }
 
 func ibStructs(sel []int) [][]ibField {
@@ -376,7 +379,7 @@ func TestVerifBoundedC06(t *testing.T) {
 			os.Remove(p)
 		}
 	})
-	fmt.Printf("BOUNDED name=C06.merge cases=%d bound=every file of 1..%d fields drawn from 17 field shapes (with/without tag literal, with/without @tag comment, comments merely mentioning @tag, values containing ':' ';' and backslashes, several keys, non-ASCII text, raw strings and doc comments containing @tag), two fields per struct, all processed in one process through handleFile: merged tags, untouched fields, bytes outside tag literals, still parses\n", n, maxFields)
+	fmt.Printf("BOUNDED name=C06.merge cases=%d bound=every file of 1..%d fields drawn from 19 field shapes (with/without tag literal, with/without @tag comment, comments merely mentioning @tag, values containing ':' ';' and backslashes, several keys, non-ASCII text, raw strings and doc comments containing @tag), two fields per struct, all processed in one process through handleFile: merged tags, untouched fields, bytes outside tag literals, still parses\n", n, maxFields)
 	if rep.viol > 0 {
 		t.Fatalf("%d violations", rep.viol)
 	}
@@ -420,7 +423,7 @@ func TestVerifBoundedC07(t *testing.T) {
 			rep.report("C07.idempotent", "file %v changed on a repeated run:\n--- after run 1:\n%s\n--- after run 2:\n%s", sel, ibDiffLine(once, twice, four), "")
 		}
 	})
-	fmt.Printf("BOUNDED name=C07.idempotent cases=%d bound=every file of 1..%d fields from 17 field shapes: run 1 (-f), run 2 (-d), runs 3-4 (-p, -f) leave the bytes of run 1; files without applicable annotations are unchanged by run 1\n", n, maxFields)
+	fmt.Printf("BOUNDED name=C07.idempotent cases=%d bound=every file of 1..%d fields from 19 field shapes: run 1 (-f), run 2 (-d), runs 3-4 (-p, -f) leave the bytes of run 1; files without applicable annotations are unchanged by run 1\n", n, maxFields)
 	if rep.viol > 0 {
 		t.Fatalf("%d violations", rep.viol)
 	}
